@@ -17,7 +17,7 @@ from .. import astutil as A
 from ..cfg import CFG
 from ..guards import MISSING, Interp, Unsupported
 from ..loader import AnalysisError
-from .common import DS, DS_MOD, PL_MOD, loop_var_leak, short, who_may_write
+from .common import DS, DS_MOD, PL_MOD, loop_var_leak, per_group_fresh, short, who_may_write
 
 ROLES = {
     "L2": f"{DS}._add_l2_regularization",
@@ -152,7 +152,7 @@ def run(ctx, rep) -> None:
     rep.rule("C01.1", "who-may-write: every in-place write that may reach a state tensor lies in that state's designated update (or the load path); parameters are written only by update_params")
     rep.rule("C01.2", "one group step: L2 < {update preconditioners, filter} < precondition+graft < decoupled decay < momentum < scale by -lr < apply; one direction list flows through")
     rep.rule("C01.3", "refresh schedule equals `step == start or (step > start and step % freq == 0)` on the incremented group step; the amortized computation runs only under it")
-    rep.rule("C01.4", "group step counter incremented exactly once by 1 before the group step; per-group counter stored in optimizer state inside the group loop")
+    rep.rule("C01.4", "group step counter incremented exactly once by 1 before the group step; per-group counter (a fresh object per group) stored in optimizer state inside the group loop; every group gets its step")
     rep.rule("C01.5", "per-step hyperparameters come from the loop's param group (scheduler changes take effect next step) and reach the matching formal")
     rep.attempt("who_may_write", who_may_write, ctx, rep, "C01.1")
     rep.attempt("_effect_order", _effect_order, ctx, rep)
@@ -160,6 +160,14 @@ def run(ctx, rep) -> None:
     rep.attempt("schedule_expr_check", schedule_expr_check, ctx, rep, "C01.3", step, "perform_amortized_computation", lambda s, a, f, env: s == a or (s > a and s % f == 0), "step == start or (step > start and step % freq == 0)")
     rep.attempt("_amortized_guard", _amortized_guard, ctx, rep)
     rep.attempt("_step_counter", _step_counter, ctx, rep)
+    rep.attempt("per_group_fresh", per_group_fresh, ctx, rep, "C01.4", [f"{DS}.{n}" for n in ("_instantiate_distributor", "_instantiate_shampoo_preconditioner_list", "_instantiate_grafting", "_instantiate_steps", "_instantiate_momentum", "_instantiate_filtered_grads")])
+    from .c04 import every_group_visited
+
+    rep.attempt("every_group_visited", every_group_visited, ctx, rep, "C01.4")
+    rep.rule("C01.7", "the diagonal fast path is taken only for exactly diagonal factor matrices (no tolerance in the flag)")
+    from .c03 import exact_diagonal_flag
+
+    rep.attempt("exact_diagonal_flag", exact_diagonal_flag, ctx, rep, "C01.7")
     rep.attempt("_wiring", _wiring, ctx, rep)
     rep.attempt("loop_var_leak", loop_var_leak, ctx, rep, "C01.4", [f"{DS}.{n}" for n in ("_instantiate_steps", "_instantiate_momentum", "_instantiate_filtered_grads", "_instantiate_grafting", "_instantiate_shampoo_preconditioner_list", "_instantiate_distributor", "step")])
     from .arith import adagrad_arithmetic, factor_arithmetic, inverse_root_wiring, step_arithmetic
